@@ -1,6 +1,14 @@
 """Scenario enumeration shared by the harness generator and the registry."""
 import os
 VERIF = os.path.dirname(os.path.dirname(os.path.abspath(__file__)))
+def _allow(pid):
+    """Measured allow-list for the thorough tier (harnesses that finished within the cap on the unchanged tree)."""
+    import json
+    try:
+        return set(json.load(open(os.path.join(VERIF, "thorough_ok_%s.json" % pid))))
+    except Exception:
+        return None
+
 KINDS = [("ds", True, False), ("us", False, False), ("dm", True, True), ("um", False, True)]
 B = {True: "true", False: "false"}
 
@@ -94,6 +102,8 @@ def c01_cases():
                         tier = "full"   # multi-edge kinds ignore the dedupe strategy: one strategy per cell in the thorough tier
                     if tier == "thorough" and pre in (0, 1) and op in (3, 8, 7):
                         tier = "full"   # node-creating variants of cells already covered by ops 4-6
+                    if tier == "thorough" and (pre in (0, 3, 5) or kn in ("dm", "um")):
+                        tier = "full"   # thorough = the single-edge kinds on the pre-states with at most one stored edge
                     if sl in (2, 3) and tier == "full" and c01_cost_class(kn, pre, op, 2, mm) == "cheap":
                         tier = "thorough"   # a rejected / dropped self-loop touches nothing: cheap under every dedupe strategy
                     name = "c01_step_%s_p%d_o%02d_d%d_m%d_l%d" % (kn, pre, op, dd, mm, sl)
@@ -133,7 +143,11 @@ def c01_cases():
                 name = "c01_new_%s_d%d_%s" % (kn, dd, "create" if create else "error")
                 call = "c01_from_nodes_and_edges(%s, %s, %d, %s)" % (B[d], B[m], dd, B[create])
                 out.append((name, call, tier, [], "new_from_nodes_and_edges, kind=%s dedupe=%d create=%s; weights/attributes symbolic" % (kn, dd, create)))
+    allow = _allow("C01")
+    if allow is not None:
+        out = [(n, c, ("full" if (tr == "thorough" and n not in allow) else tr), cv, w) for (n, c, tr, cv, w) in out]
     return out
+
 
 def c03_quick_pick(kn, pre, op, dd):
     single = kn in ("ds", "us")
@@ -376,6 +390,14 @@ def c20_admissible(d, m, l, s):
         return False
     return True
 
+def _allow_unused(pid):
+    """Measured allow-list for the thorough tier (harnesses that finished within 400 s on the unchanged tree)."""
+    import json
+    try:
+        return set(json.load(open(os.path.join(VERIF, "thorough_ok_%s.json" % pid))))
+    except Exception:
+        return None
+
 def c20_cases():
     out = []
     quick = {(0, 0), (5, 0), (1, 2), (2, 2), (5, 2), (3, 1), (6, 1), (5, 5), (4, 7), (0, 3), (1, 3), (2, 4), (0, 6), (5, 6), (0, 5), (3, 0), (5, 4)}
@@ -412,6 +434,9 @@ def c20_cases():
                     tier = "full"   # measured > 25 min (BinaryHeap search with symbolic options)
                     out.append(("c20_%s_s%d_weightedpaths" % (kn, s), "c20_harness!(c20_%s_s%d_weightedpaths, %s, %s, %s, %d, 8);" % (kn, s, B[d], B[m], B[l], s), tier, ["reached end"],
                                 "kind=%s: weighted single_source on a constant tie graph%s, target / cutoff / first_only / with_paths symbolic: returns without panic" % (kn, " with a zero-weight self-loop" if s == 6 else "")))
+    allow = _allow("C20")
+    if allow is not None:
+        out = [(n, c, ("full" if (tr == "thorough" and n not in allow) else tr), cv, w) for (n, c, tr, cv, w) in out]
     return out
 
 def emit():
